@@ -141,3 +141,11 @@ package service
 //@ func (totalByTag).toSortedList$1
 //@ requires 0 <= i && i < len(outer_result) && 0 <= j && j < len(outer_result) && outer_result[i] != nil && outer_result[j] != nil
 //@ ensures result0 == (outer_result[i].keyForSort < outer_result[j].keyForSort)
+
+// query.go — Sort (property C13): the comparator handed to sort.Slice orders two records by the day numbers of their
+// dates and by nothing else (not by notation, text or position): ascending when the oldest comes first, else
+// descending. (That sort.Slice returns a permutation ordered by its comparator is a dependency.)
+//@ func Sort$1
+//@ requires 0 <= i && i < len(sorted) && 0 <= j && j < len(sorted)
+//@ requires typeis(sorted[i], *klog.record) && typeis(sorted[i].(*klog.record).date, *klog.date) && typeis(sorted[j], *klog.record) && typeis(sorted[j].(*klog.record).date, *klog.date)
+//@ ensures result == ite(startWithOldest, rdn(sorted[i]) <= rdn(sorted[j]), rdn(sorted[i]) > rdn(sorted[j]))
